@@ -12,6 +12,7 @@ import (
 	"sync"
 	"testing"
 	"testing/synctest"
+	"time"
 
 	"pgregory.net/rapid"
 
@@ -162,6 +163,10 @@ type seqPkt struct {
 	Host int `json:"h"`
 	Port int `json:"p"`
 	Len  int `json:"n"`
+	// Restart (downlink, ss2022 upstream only): before this packet the clock moves by 61 s (1) or 5 min (2)
+	// and the upstream server starts a new server session (packet ids restart at 0); the relay's client
+	// session lives on and must accept the change and everything that follows.
+	Restart int `json:"restart,omitempty"`
 }
 
 type seqCase struct {
@@ -299,6 +304,16 @@ func drawSeqCase(rt *rapid.T) *seqCase {
 	for i := range rapid.IntRange(1, 4).Draw(rt, "down-more") {
 		s.Down = append(s.Down, nextPkt(rt, s.Down[len(s.Down)-1], nil, ips, fmt.Sprintf("down%d", i+1)))
 	}
+	if c.C.isSS() {
+		for k := range rapid.SampledFrom([]int{0, 0, 1, 2, 2, 3}).Draw(rt, "restarts") {
+			p := nextPkt(rt, s.Down[len(s.Down)-1], nil, ips, fmt.Sprintf("rs%d", k))
+			p.Restart = rapid.IntRange(1, 2).Draw(rt, "restart-gap")
+			s.Down = append(s.Down, p)
+			for j := range rapid.IntRange(1, 4).Draw(rt, "after-restart") {
+				s.Down = append(s.Down, nextPkt(rt, s.Down[len(s.Down)-1], nil, ips, fmt.Sprintf("rs%d-%d", k, j)))
+			}
+		}
+	}
 	return s
 }
 
@@ -375,9 +390,26 @@ func runSeqCase(s *seqCase) (v string, labels []string, hits int) {
 		prevReach, prevResolved = reach, resolved
 	}
 	prevDown := 0
+	restarts, afterSecond := 0, 0
 	for i, p := range s.Down {
 		r.stage = fmt.Sprintf("downlink[%d]", i)
+		if p.Restart > 0 {
+			time.Sleep([]time.Duration{0, 61 * time.Second, 5 * time.Minute}[p.Restart])
+			r.upPacker = nil // real upstream: NewPacker = a new server session, packet ids from 0
+			r.harnessSSID += 2
+			r.harnessSPID = 0
+			restarts++
+			r.stage = fmt.Sprintf("downlink[%d] after upstream server-session change %d", i, restarts)
+		}
 		ok := r.downlink(s.target(p), p.Len)
+		if restarts >= 1 && r.downReach >= 1 {
+			hit(fmt.Sprintf("down:server-session-change-%d-survived", min(restarts, 3)))
+			if restarts >= 2 {
+				if afterSecond++; afterSecond >= 2 {
+					hit("down:packets-after-second-server-session-change")
+				}
+			}
+		}
 		if i > 0 && prevDown >= 1 && r.downReach >= 1 {
 			t := transition(s.Down[i-1], p)
 			hit("down:" + t + "@cli-unpacker/" + ssName(c.C.Proto))
@@ -391,7 +423,8 @@ func runSeqCase(s *seqCase) (v string, labels []string, hits int) {
 }
 
 var seqRequired = func() []string {
-	out := []string{"direct-client:fail-then-resolve", "direct-client:resolve-then-fail", "direct-client-resolve-failed"}
+	out := []string{"direct-client:fail-then-resolve", "direct-client:resolve-then-fail", "direct-client-resolve-failed",
+		"down:server-session-change-1-survived", "down:server-session-change-2-survived", "down:server-session-change-3-survived", "down:packets-after-second-server-session-change"}
 	domainTr := []string{"same-domain-diff-port", "same-domain-same-port", "diff-domain", "domain-to-ip", "ip-to-domain", "same-ip-diff-port", "diff-ip"}
 	for _, t := range domainTr {
 		out = append(out, "up:"+t+"@cli-packer/direct")
